@@ -27,57 +27,68 @@ func isIntegerType(t types.Type) bool {
 	return ok && b.Info()&types.IsInteger != 0
 }
 
+// normCond reads a branch condition as `v op k` for a constant k (mirrored and negated as needed).
+func normCond(cond core.Cond, v ssa.Value) (op token.Token, k int64, ok bool) {
+	bo, isBin := cond.V.(*ssa.BinOp)
+	if !isBin {
+		return
+	}
+	var other ssa.Value
+	op = bo.Op
+	switch {
+	case bo.X == v:
+		other = bo.Y
+	case bo.Y == v:
+		other = bo.X
+		// mirror the comparison so that it reads `v op other`
+		switch op {
+		case token.LSS:
+			op = token.GTR
+		case token.GTR:
+			op = token.LSS
+		case token.LEQ:
+			op = token.GEQ
+		case token.GEQ:
+			op = token.LEQ
+		}
+	default:
+		return
+	}
+	k, isConst := core.ConstInt(other)
+	if !isConst {
+		return
+	}
+	if !cond.True {
+		switch op {
+		case token.EQL:
+			op = token.NEQ
+		case token.NEQ:
+			op = token.EQL
+		case token.LSS:
+			op = token.GEQ
+		case token.GEQ:
+			op = token.LSS
+		case token.GTR:
+			op = token.LEQ
+		case token.LEQ:
+			op = token.GTR
+		default:
+			return
+		}
+	}
+	switch op {
+	case token.EQL, token.NEQ, token.LSS, token.LEQ, token.GTR, token.GEQ:
+		return op, k, true
+	}
+	return
+}
+
 // nonZeroFact: the condition establishes v != 0.
 func nonZeroFact(v ssa.Value) func(core.Cond) bool {
-	same := func(a ssa.Value) bool { return a == v }
 	return func(cond core.Cond) bool {
-		bo, ok := cond.V.(*ssa.BinOp)
+		op, k, ok := normCond(cond, v)
 		if !ok {
 			return false
-		}
-		var other ssa.Value
-		op := bo.Op
-		switch {
-		case same(bo.X):
-			other = bo.Y
-		case same(bo.Y):
-			other = bo.X
-			// mirror the comparison so that it reads `v op other`
-			switch op {
-			case token.LSS:
-				op = token.GTR
-			case token.GTR:
-				op = token.LSS
-			case token.LEQ:
-				op = token.GEQ
-			case token.GEQ:
-				op = token.LEQ
-			}
-		default:
-			return false
-		}
-		k, isConst := core.ConstInt(other)
-		if !isConst {
-			return false
-		}
-		if !cond.True {
-			// negate
-			switch op {
-			case token.EQL:
-				op = token.NEQ
-			case token.NEQ:
-				op = token.EQL
-			case token.LSS:
-				op = token.GEQ
-			case token.GEQ:
-				op = token.LSS
-			case token.GTR:
-				op = token.LEQ
-			case token.LEQ:
-				op = token.GTR
-			default:
-				return false
-			}
 		}
 		switch op {
 		case token.NEQ:
@@ -92,6 +103,23 @@ func nonZeroFact(v ssa.Value) func(core.Cond) bool {
 			return k <= 0
 		case token.LEQ:
 			return k <= -1
+		}
+		return false
+	}
+}
+
+// atLeastFact: the condition establishes v >= min.
+func atLeastFact(v ssa.Value, min int64) func(core.Cond) bool {
+	return func(cond core.Cond) bool {
+		op, k, ok := normCond(cond, v)
+		if !ok {
+			return false
+		}
+		switch op {
+		case token.EQL, token.GEQ:
+			return k >= min
+		case token.GTR:
+			return k >= min-1
 		}
 		return false
 	}
